@@ -367,11 +367,9 @@ pub fn run(ctx: &Ctx) -> i32 {
     want.id_probes = vec![0, 1, 2, 3, 7];
     let mut targets: Vec<Target> = Vec::new();
     let mut add = |name: &str, bytes: Vec<u8>, end: usize| {
-        // premise: the target loads from memory.  A generated or sample file that is refused on the tree
-        // under test is the business of C01 / C07 / C10 ...; here it is skipped with a note.
         let Loaded::Ok(f) = load(&bytes) else {
-            ctx.note(format!("target {} skipped: the file does not load from memory on this tree (not a C14 matter)", name));
-            return;
+            eprintln!("machinery error: {} does not load", name);
+            std::process::exit(2);
         };
         let baseline = digest_of(&f, &want);
         targets.push(Target { name: name.to_string(), bytes, end, baseline, want: want.clone() });
@@ -392,14 +390,10 @@ pub fn run(ctx: &Ctx) -> i32 {
         }
     }
 
-    if targets.len() < 4 {
-        eprintln!("machinery error: only {} target files load", targets.len());
-        return 2;
-    }
     // (1) deviation-bounded schedules
     let bound = if thorough { 3 } else { 2 };
     for (ti, t) in targets.iter().enumerate() {
-        let b = if t.name == "big" { 1 } else if t.name.starts_with('b') || !thorough { bound } else { bound - 1 };
+        let b = if t.name == "big" { 1 } else if ti < 3 || !thorough { bound } else { bound - 1 };
         let fam = format!("schedules-{}-d{}", t.name, b);
         if !ctx.wants_family(&fam) {
             continue;
